@@ -413,10 +413,11 @@ func BlockedYield() {
 		return
 	}
 	// blockedStreak counts consecutive blocked acquisitions with no ordinary step by
-	// anybody in between: once every live client has been offered the baton a few
-	// times and all of them are still blocked, nobody can release anything any more.
+	// anybody in between. The baton is passed round-robin (not by the run's policy), so
+	// after 2 full rounds every live client has had two turns and all of them are still
+	// blocked: nobody can release anything any more — a deadlock.
 	s.blockedStreak++
-	if s.blockedStreak > uint64(4*s.nAlive+8) {
+	if s.blockedStreak > uint64(2*s.nAlive+2) {
 		s.blockedStreak = 0
 		s.deadlocks++
 		panic(StepCapExceeded{})
@@ -424,7 +425,38 @@ func BlockedYield() {
 	if s.nAlive < 2 {
 		return
 	}
-	Pass(-4) // does not touch blockedStreak: only an ordinary step by somebody resets it
+	passFair(-4) // does not touch blockedStreak: only an ordinary step by somebody resets it
+}
+
+// passFair hands the baton to the next live client in cyclic order (recorded like any
+// other transfer; a replay follows the recording).
+//
+//go:norace
+func passFair(site int) {
+	c := s.cur
+	s.step++
+	s.lstep[c]++
+	s.opSteps[c]++
+	s.since++
+	st := int32(site)
+	if s.cfg.OnStep != nil {
+		s.cfg.OnStep(c, st)
+	}
+	s.lastSite[c] = st
+	if s.cfg.StepCap != 0 && s.opSteps[c] > s.cfg.StepCap {
+		s.opSteps[c] = 0
+		panic(StepCapExceeded{})
+	}
+	to := -1
+	if s.cfg.Policy == PolForced {
+		to = decide(c, st)
+	}
+	if to < 0 || to == c || !s.alive[to] {
+		to = nextCyclic(c)
+	}
+	if to >= 0 && to != c {
+		transfer(c, to, st, false)
+	}
 }
 
 //go:norace
